@@ -13,7 +13,8 @@ def plan(tier, seed):
         shards.append(dict(bin=("tsan", "c09"), args=["--mode", "sessions", "--cases", 12 if quick else 350,
                                                      "--engine", build.binpath("tsan", "texel"), "--net", net]))
     for i in range(16 - nsess):
-        shards.append(dict(bin=("tsan", "c09"), args=["--mode", "filter", "--cases", 4 if quick else 250, "--max-fens", 16 if quick else 60]))
+        shards.append(dict(bin=("tsan", "c09"), args=["--mode", "filter", "--cases", 4 if quick else 250, "--max-fens", 16 if quick else 60,
+                                                     "--max-plies", 10 if quick else 24]))  # quick: short games, whose proof games are found at once (a hard position costs tens of minutes under TSan)
     return dict(
         builds=[("tsan", "c09"), ("tsan", "texel")],
         nets=[("material", 1)],
